@@ -509,12 +509,12 @@ func (s spec) checkParsed(r *hx.Run, id string, m2 *mail.Msg) {
 			subj = d
 		}
 	}
-	if subj != s.subject {
+	if !sameText(s.subject, subj) {
 		r.Fail(id, "subject-mismatch", fmt.Sprintf("subject %q parsed back as %q", s.subject, subj))
 	}
 	// addresses
 	from := m2.GetFrom()
-	if len(from) != 1 || from[0].Address != "from@x.test" || from[0].Name != s.fromName {
+	if len(from) != 1 || from[0].Address != "from@x.test" || !sameText(s.fromName, from[0].Name) {
 		r.Fail(id, "from-mismatch", fmt.Sprintf("from name %q parsed back as %v", s.fromName, from))
 	}
 	to := m2.GetTo()
@@ -522,7 +522,7 @@ func (s spec) checkParsed(r *hx.Run, id string, m2 *mail.Msg) {
 		r.Fail(id, "to-count", fmt.Sprintf("%d To addresses parsed back as %d", s.nTo, len(to)))
 	} else {
 		for i, a := range to {
-			if a.Address != fmt.Sprintf("to%d@x.test", i) || a.Name != s.toNameAt(i) {
+			if a.Address != fmt.Sprintf("to%d@x.test", i) || !sameText(s.toNameAt(i), a.Name) {
 				r.Fail(id, "to-mismatch", fmt.Sprintf("To[%d] (name %q) parsed back as %v", i, s.toNameAt(i), a))
 				break
 			}
@@ -532,7 +532,7 @@ func (s spec) checkParsed(r *hx.Run, id string, m2 *mail.Msg) {
 		r.Fail(id, "cc-count", fmt.Sprintf("%d Cc addresses parsed back as %d", s.nCc, len(cc)))
 	} else {
 		for i, a := range cc {
-			if a.Address != fmt.Sprintf("cc%d@x.test", i) || a.Name != s.ccNameAt(i) {
+			if a.Address != fmt.Sprintf("cc%d@x.test", i) || !sameText(s.ccNameAt(i), a.Name) {
 				r.Fail(id, "cc-mismatch", fmt.Sprintf("Cc[%d] (name %q) parsed back as %v", i, s.ccNameAt(i), a))
 				break
 			}
@@ -630,10 +630,10 @@ func (s spec) checkRerender(r *hx.Run, id string, r2 []byte) {
 		r.Fail(id, "rerender-unreadable-"+shape, fmt.Sprintf("independent reader fails on the re-render: %v", err))
 		return
 	}
-	if subj, err := wordDec.DecodeHeader(hdr.Get("Subject")); err != nil || subj != s.subject {
+	if subj, err := wordDec.DecodeHeader(hdr.Get("Subject")); err != nil || !sameText(s.subject, subj) {
 		r.Fail(id, "rerender-subject-mismatch", fmt.Sprintf("subject %q re-rendered as %q", s.subject, hdr.Get("Subject")))
 	}
-	if al, err := hdr.AddressList("From"); err != nil || len(al) != 1 || al[0].Name != s.fromName || al[0].Address != "from@x.test" {
+	if al, err := hdr.AddressList("From"); err != nil || len(al) != 1 || !sameText(s.fromName, al[0].Name) || al[0].Address != "from@x.test" {
 		r.Fail(id, "rerender-from-mismatch", fmt.Sprintf("from %q re-rendered as %q", s.fromName, hdr.Get("From")))
 	}
 	chkList := func(field string, n int, nameAt func(int) string, addr string) {
@@ -649,7 +649,7 @@ func (s spec) checkRerender(r *hx.Run, id string, r2 []byte) {
 			return
 		}
 		for i, a := range al {
-			if a.Name != nameAt(i) || a.Address != fmt.Sprintf(addr, i) {
+			if !sameText(nameAt(i), a.Name) || a.Address != fmt.Sprintf(addr, i) {
 				r.Fail(id, "rerender-"+strings.ToLower(field)+"-mismatch", fmt.Sprintf("%s[%d] (name %q) re-rendered as %v", field, i, nameAt(i), a))
 				return
 			}
@@ -752,6 +752,7 @@ func mimeTable(m *mail.Msg) string {
 // after the documented replacement of control and path characters (bytes < 32, DEL, and " / : < > ? \ |) - the
 // reference is the documented rule (func sanitized), not the library's function
 func (s spec) checkFirstRender(r *hx.Run, id string, r1 []byte) {
+	s.checkFirstRenderHeaders(r, id, r1)
 	_, leaves, _, err := readMIME(r1)
 	if err != nil {
 		return // unreadable first renderings are C01's subject; the re-render checks report them for C10
@@ -777,6 +778,89 @@ func (s spec) checkFirstRender(r *hx.Run, id string, r1 []byte) {
 	}
 	chk("attachment", s.atts, atts)
 	chk("embed", s.embs, embs)
+}
+
+// rawField: the field body of the first field called name in a header block, unfolded per RFC 5322 2.2.3 (every
+// CRLF that is followed by SP or TAB is removed, the white space stays) - our own reader: textproto would trim
+// and re-join continuation lines
+func rawField(block []byte, name string) (string, bool) {
+	lines := strings.Split(string(block), "\r\n")
+	for i, l := range lines {
+		if len(l) > len(name) && strings.EqualFold(l[:len(name)], name) && l[len(name)] == ':' {
+			v := l[len(name)+1:]
+			for j := i + 1; j < len(lines) && len(lines[j]) > 0 && (lines[j][0] == ' ' || lines[j][0] == '\t'); j++ {
+				v += lines[j]
+			}
+			return v, true
+		}
+	}
+	return "", false
+}
+
+func trimWS(v string) string { return strings.Trim(v, " \t") }
+
+// irregularWS: leading / trailing blanks, TABs or runs of blanks - what textproto's line joining may change
+func irregularWS(v string) bool {
+	return v != trimWS(v) || strings.Contains(v, "  ") || strings.Contains(v, "\t")
+}
+
+func normWS(v string) string { return strings.Join(strings.Fields(v), " ") }
+
+// sameText: equality of a value that went through the PARSER (textproto trims and joins folded lines):
+// byte-exact for regular values, modulo white-space runs for irregular ones
+func sameText(set, got string) bool {
+	if irregularWS(set) {
+		return normWS(set) == normWS(got)
+	}
+	return set == got
+}
+
+// checkFirstRenderHeaders: the Subject and the From / To / Cc display names that were set are what a reader of the
+// FIRST rendering finds - RFC 5322 unfolding, RFC 2047 decoding; byte-exact including inner runs of blanks and TABs
+// (leading and trailing white space of the whole value is insignificant)
+func (s spec) checkFirstRenderHeaders(r *hx.Run, id string, r1 []byte) {
+	if s.fromName == "" && s.subject == "" && s.nTo == 0 {
+		return // fname cases carry no header spec
+	}
+	hb := headerBlock(r1)
+	if v, ok := rawField(hb, "Subject"); ok || s.subject != "" {
+		d, err := wordDec.DecodeHeader(trimWS(v))
+		if err != nil || trimWS(d) != trimWS(s.subject) {
+			r.Fail(id, "first-render-subject", fmt.Sprintf("subject %q is rendered as %q", s.subject, v))
+		}
+	}
+	names := func(field string, n int, nameAt func(int) string) {
+		if n == 0 {
+			return
+		}
+		v, ok := rawField(hb, field)
+		if !ok {
+			r.Fail(id, "first-render-"+strings.ToLower(field), fmt.Sprintf("no %s field in the rendering", field))
+			return
+		}
+		al, err := netmail.ParseAddressList(trimWS(v))
+		if err != nil {
+			if s.hasBackslashQ() {
+				r.Fail(id, "dispname-backslash-q-encoded-word", fmt.Sprintf("%s %q is unreadable: %v", field, v, err))
+			} else {
+				r.Fail(id, "first-render-"+strings.ToLower(field), fmt.Sprintf("%s %q is unreadable: %v", field, v, err))
+			}
+			return
+		}
+		if len(al) != n {
+			r.Fail(id, "first-render-"+strings.ToLower(field), fmt.Sprintf("%d %s recipients rendered as %q", n, field, v))
+			return
+		}
+		for i, a := range al {
+			if trimWS(a.Name) != trimWS(nameAt(i)) {
+				r.Fail(id, "first-render-"+strings.ToLower(field)+"-name", fmt.Sprintf("%s display name %q is rendered as %q (%q)", field, nameAt(i), a.Name, v))
+				return
+			}
+		}
+	}
+	names("From", 1, func(int) string { return s.fromName })
+	names("To", s.nTo, s.toNameAt)
+	names("Cc", s.nCc, s.ccNameAt)
 }
 
 // ---------- one case ----------
@@ -978,6 +1062,13 @@ func (x g) content() []byte {
 func (x g) spec() spec {
 	s := spec{enc: []string{"quoted-printable", "base64", "7bit", "8bit"}[x.n(4)], date: 1700000000 + int64(x.n(100000000))}
 	s.subject = x.words(6, 15)
+	if x.p(12) {
+		// runs of blanks / TABs between the words, sometimes leading or trailing blanks
+		s.subject = strings.NewReplacer(" ", []string{"  ", " \t", "   ", "\t"}[x.n(4)]).Replace(x.words(8, 0))
+		if x.p(30) {
+			s.subject = " " + s.subject + "  "
+		}
+	}
 	if x.p(10) {
 		s.subject = strings.Repeat("long subject word ", 4+x.n(5)) + x.words(2, 30)
 	}
@@ -1107,6 +1198,16 @@ func Run(r *hx.Run, replay []hx.Case) {
 				s.embs = []fileSpec{{"i.png", []byte("\x89PNG")}}
 			}
 			runRT(r, r.NewID(), s)
+		}
+	}
+	// white space inside unencoded header values: runs of blanks, TABs, leading / trailing blanks, short and long
+	// enough to be folded, in the Subject and in From / To / Cc display names
+	for _, subj := range []string{"Re:  column  aligned   text", "tab\there", " leading and trailing ", "a  b", "x \t y",
+		strings.Repeat("wide  gap ", 12) + "end", strings.Repeat("w\tt ", 25), "trailing blanks   "} {
+		for _, nm := range []string{"Alice  M.  Example", "Tab\tName", " Lead", "plain", strings.Repeat("Very  Long  ", 6) + "Name"} {
+			p0 := "body"
+			runRT(r, r.NewID(), spec{enc: "quoted-printable", subject: subj, fromName: nm, nTo: 2, nCc: 1,
+				toNames: []string{nm, "Bob  B."}, ccNames: []string{"C  c"}, date: 1700000000, plain: &p0})
 		}
 	}
 	// display names that make net/mail quote the phrase (or encode it): comma, semicolon, colon, angle brackets,
